@@ -139,6 +139,9 @@ type vmCase struct {
 	TxIdx  int     `json:"txidx,omitempty"`
 	Amount uint64  `json:"amount,omitempty"`
 	Sx     Ev      `json:"sx,omitempty"`
+	// what a freshly library-signed transaction object still carries on the checked input
+	CarrySats   *uint64 `json:"carrySats,omitempty"`
+	CarryScript []int   `json:"carryScript,omitempty"`
 }
 
 type caseIn struct {
@@ -245,6 +248,10 @@ func runVM(c vmCase, dbg string) (res vmResult) {
 	var txBefore []byte
 	if c.Tx != nil {
 		tx = c.Tx.build(c.TxIdx, us)
+		if c.CarrySats != nil {
+			tx.Inputs[c.TxIdx].PreviousTxSatoshis = *c.CarrySats
+			tx.Inputs[c.TxIdx].PreviousTxScript = bscript.NewFromBytes(toBytes(c.CarryScript))
+		}
 		txBefore = tx.Bytes()
 		opts = append(opts, interpreter.WithTx(tx, c.TxIdx, &bt.Output{Satoshis: c.Amount, LockingScript: ls}))
 	} else if !c.NoTx {
@@ -296,6 +303,23 @@ func runVM(c vmCase, dbg string) (res vmResult) {
 		}
 	}()
 	res.same = bytes.Equal(*us, unlock) && bytes.Equal(*ls, lock) && (tx == nil || bytes.Equal(tx.Bytes(), txBefore))
+	if tx != nil && c.Tx != nil && res.outcome != "panic" && len(tx.Inputs) == len(c.Tx.Ins) {
+		// the only thing Execute may record on the transaction: the spent output on the checked input
+		for k, in := range tx.Inputs {
+			if k == c.TxIdx {
+				untouched := in.PreviousTxScript == nil && in.PreviousTxSatoshis == 0
+				if c.CarrySats != nil {
+					untouched = in.PreviousTxScript != nil && bytes.Equal(*in.PreviousTxScript, toBytes(c.CarryScript)) && in.PreviousTxSatoshis == *c.CarrySats
+				}
+				recorded := in.PreviousTxScript != nil && bytes.Equal(*in.PreviousTxScript, lock) && in.PreviousTxSatoshis == c.Amount
+				if !untouched && !recorded {
+					res.same = false
+				}
+			} else if in.PreviousTxScript != nil || in.PreviousTxSatoshis != 0 {
+				res.same = false
+			}
+		}
+	}
 	return res
 }
 
